@@ -1,6 +1,6 @@
 """Witness finder / replay.  Never decides a verdict: it only tries to turn a failed obligation into a concrete
 failing input on the REAL crate (a small cargo project under /verif/replay linked against the repo under test)."""
-import json, os, sys, subprocess, shutil, time
+import json, os, sys, subprocess, shutil, time, fcntl
 ROOT = os.path.dirname(os.path.dirname(os.path.abspath(__file__)))
 
 # property -> list of (binary, args) boundary-input enumerations
@@ -37,8 +37,20 @@ def build(repo, scratch, bins):
     if os.path.exists(lock): shutil.copy(lock, os.path.join(d, "Cargo.lock"))
     env = dict(os.environ, CARGO_TARGET_DIR=os.path.join(ROOT, "replay", "target"), CARGO_NET_OFFLINE="true")
     cmd = ["cargo", "build", "--offline", "--release"] + sum((["--bin", b] for b in sorted(set(bins))), [])
-    p = subprocess.run(cmd, cwd=d, env=env, capture_output=True, text=True, timeout=900)
+    # The target directory is shared (incremental builds) by every check run, and runs against DIFFERENT trees may overlap
+    # (seed tests in parallel): build under an exclusive lock and copy the binaries of THIS tree into the run's scratch
+    # directory before the lock is released; exe() below only ever runs those copies.
+    os.makedirs(os.path.join(ROOT, "replay", "target"), exist_ok=True)
+    with open(os.path.join(ROOT, "replay", "target", ".verif-build.lock"), "w") as lk:
+        fcntl.flock(lk, fcntl.LOCK_EX)
+        p = subprocess.run(cmd, cwd=d, env=env, capture_output=True, text=True, timeout=1800)
+        if p.returncode == 0:
+            os.makedirs(os.path.join(d, "bin"), exist_ok=True)
+            for b in set(bins): shutil.copy2(os.path.join(ROOT, "replay", "target", "release", b), os.path.join(d, "bin", b))
     return p.returncode == 0, p.stderr[-2000:]
+
+def exe(scratch, b):
+    return os.path.join(scratch, "replay", "bin", b)
 
 def find_witness(prop, violations, repo, scratch):
     # a failure record may already carry a replayed counterexample (Kani concrete playback)
@@ -55,9 +67,8 @@ def find_witness(prop, violations, repo, scratch):
     seed = os.environ.get("VERIF_SEED", "0") or "0"
     tried = []
     for b, args in finders:
-        exe = os.path.join(ROOT, "replay", "target", "release", b)
         try:
-            p = subprocess.run([exe] + args + [seed], capture_output=True, text=True, timeout=300)
+            p = subprocess.run([exe(scratch, b)] + args + [seed], capture_output=True, text=True, timeout=300)
             out = p.stdout.strip().split("\n")[-1] if p.stdout.strip() else ""
         except subprocess.TimeoutExpired:
             tried.append({"finder": b, "args": args, "result": "timeout"}); continue
@@ -82,7 +93,7 @@ def replay_file(path, repo):
             try:
                 ok, err = build(repo, sc, [w["finder"]])
                 if ok:
-                    p = subprocess.run([os.path.join(ROOT, "replay", "target", "release", w["finder"])] + w.get("args", []) + [os.environ.get("VERIF_SEED", "0") or "0"], capture_output=True, text=True, timeout=300)
+                    p = subprocess.run([exe(sc, w["finder"])] + w.get("args", []) + [os.environ.get("VERIF_SEED", "0") or "0"], capture_output=True, text=True, timeout=300)
                     print("replayed on %s: exit %d: %s" % (repo, p.returncode, p.stdout.strip()[-1500:]))
                     return 1 if p.returncode != 0 else 0
             finally:
